@@ -231,8 +231,10 @@ type StoreCall struct {
 	Data []byte
 	TTL  time.Duration
 	// answer
-	out []byte
-	err error
+	out     []byte
+	err     error
+	cutAt   int
+	fullLen int
 }
 
 type diskRec struct {
@@ -368,14 +370,15 @@ func (fakeConn) SetWriteDeadline(t time.Time) error { return nil }
 // client side: response writer and result
 
 type ClientResult struct {
-	Refused   bool // no listener on the address
-	Status    int
-	Header    http.Header // snapshot at WriteHeader
-	Body      []byte
-	Aborted   bool
-	PanicVal  string
-	WroteHdr  bool
-	BodyBytes int
+	Refused    bool // no listener on the address
+	Status     int
+	Header     http.Header // snapshot at WriteHeader
+	Body       []byte
+	Aborted    bool
+	PanicVal   string
+	WroteHdr   bool
+	BodyBytes  int
+	AllocBytes int64
 }
 
 type simRW struct {
